@@ -2,6 +2,7 @@
 from __future__ import annotations
 
 import ast
+import typing as T
 
 from ..context import Context
 from ..load import AnalysisError, FuncInfo, chain, norm, own_nodes, parent
@@ -11,9 +12,9 @@ from .common import NET_OPS, fkey, net_sites, trees, where
 EXPECTED_DELAYS = [0, 0.5, 1, 2, 4]
 
 
-def find_retry_loop(ctx: Context, f: FuncInfo) -> tuple[ast.While, ast.Try, ast.ExceptHandler]:
+def find_retry_loop(ctx: Context, f: FuncInfo) -> tuple[T.Any, ast.Try, ast.ExceptHandler]:
     for n in own_nodes(f.node):
-        if isinstance(n, ast.While):
+        if isinstance(n, (ast.While, ast.For)):
             for t in n.body:
                 if isinstance(t, ast.Try):
                     for h in t.handlers:
@@ -21,6 +22,54 @@ def find_retry_loop(ctx: Context, f: FuncInfo) -> tuple[ast.While, ast.Try, ast.
                         if any(x in ("ConnectError", "ConnectTimeout") for x in types_):
                             return n, t, h
     raise AnalysisError(f"anchor vanished: connect retry loop in {f.qual}")
+
+
+def _for_form(ctx: Context, tree: str, f: FuncInfo, loop: ast.For, tr: ast.Try, handler: ast.ExceptHandler) -> None:
+    """The retry loop written as `for attempt in range(..)` (possibly zipped with the back-off sequence)."""
+    from ..norm import run_to
+
+    rep = ctx.rep
+    cfg = ctx.cfg(f)
+    ranges = [c for c in ast.walk(loop.iter) if isinstance(c, ast.Call) and isinstance(c.func, ast.Name) and c.func.id == "range"]
+    sim = {}
+    for R in (-1, 0, 1, 2, 5):
+        env: dict = {"self._retries": R}
+        if len(ranges) == 1 and run_to(f.node.body, loop, env) in ("hit", "miss"):
+            args = [peval(a, env) for a in ranges[0].args]
+            sim[R] = len(range(*args)) - 1 if all(isinstance(a, int) and not isinstance(a, bool) for a in args) else None
+        else:
+            sim[R] = None
+    want = {-1: 0, 0: 0, 1: 1, 2: 2, 5: 5}
+    rep.ob("C20.R3", fkey(tree, f, "raise-guard"), sim == want, where(f, loop),
+           f"`for ... in {ast.unparse(loop.iter)}` makes {sim} retries (attempts - 1) for retries = -1, 0, 1, 2, 5; must be exactly {want}")
+    # exhaustion: the statement after the loop raises the failure the handler recorded
+    blk = parent(loop)
+    sibs = next((l for fld in ("body", "orelse", "finalbody") for l in [getattr(blk, fld, None)] if isinstance(l, list) and any(x is loop for x in l)), [])
+    after = sibs[next(i for i, x in enumerate(sibs) if x is loop) + 1:] if sibs else []
+    after = [x for x in after if not isinstance(x, ast.Assert)]
+    recorded = {norm(a.targets[0]) for a in ast.walk(handler) if isinstance(a, ast.Assign) and handler.name and norm(a.value) == handler.name}
+    ok_raise = bool(after) and isinstance(after[0], ast.Raise) and after[0].exc is not None and norm(after[0].exc) in recorded and not loop.orelse
+    rep.ob("C20.R3", fkey(tree, f, "reraise"), ok_raise, where(f, after[0] if after else loop), "when the attempts are used up the last recorded failure is raised" if ok_raise else
+           f"after the loop: {[ast.unparse(x)[:40] for x in after[:2]]}; the handler records the failure in {sorted(recorded)}")
+    # R4: the back-off sequence advances only between a failure and the next attempt
+    gens = [n for n in own_nodes(f.node) if isinstance(n, ast.Assign) and isinstance(n.value, ast.Call) and (chain(n.value.func) or [""])[-1] == "exponential_backoff"]
+    gname = norm(gens[0].targets[0]) if len(gens) == 1 else None
+    in_loop = {id(x) for x in ast.walk(loop)}
+    rep.ob("C20.R4", fkey(tree, f, "generator-outside-loop"), len(gens) == 1 and id(gens[0]) not in in_loop, where(f, gens[0]) if gens else where(f),
+           "back-off generator is created once before the loop (a fresh generator per attempt would always yield 0)")
+    head_advance = gname is not None and any(isinstance(x, ast.Name) and x.id == gname for x in ast.walk(loop.iter))
+    nexts = [c for c in own_nodes(loop) if isinstance(c, ast.Call) and isinstance(c.func, ast.Name) and c.func.id == "next" and c.args and norm(c.args[0]) == gname]
+    in_handler = {id(x) for x in ast.walk(handler)}
+    outside = [c for c in nexts if id(c) not in in_handler]
+    ok_adv = not head_advance and not outside and len(nexts) == 1
+    rep.ob("C20.R4", fkey(tree, f, "retry-path-0"), ok_adv, where(f, loop),
+           "the back-off sequence is advanced once per caught failure" if ok_adv else
+           (f"`{ast.unparse(loop.iter)}` draws a value from the back-off sequence at the head of EVERY iteration - also before the first attempt: the leading 0 is spent there and "
+            "every retry waits one step further along the sequence (0.5, 1, 2 ... instead of 0, 0.5, 1 ...)") if head_advance else
+           f"next({gname}) is evaluated {len(nexts)} time(s) in the loop, {len(outside)} of them outside the failure handler")
+    # the pause uses exactly that value
+    sleeps = [c for c in own_nodes(loop) if isinstance(c, ast.Call) and (chain(c.func) or [""])[-1] == "sleep"]
+    rep.ob("C20.R4", fkey(tree, f, "sleep"), len(sleeps) == 1, where(f, sleeps[0] if sleeps else loop), f"{len(sleeps)} sleep call(s) in the retry loop")
 
 
 def run(ctx: Context) -> None:
@@ -82,90 +131,93 @@ def run(ctx: Context) -> None:
             rep.ob("C20.R2", fkey(tree, s.owner, f"{norm(s.node.func)}@{op}"), op in ("connect_tcp", "connect_unix_socket", "start_tls"),
                    where(s.owner, s.node), f"network operation `{op}` is reachable inside the retried region")
         rep.floor("C20.R2", f"establishment operations in the retried region ({tree})", len(region_sites), 3)
-        # R3 counter
-        ctr = None
-        guard_if = None
-        for st in handler.body:
-            if isinstance(st, ast.If) and any(isinstance(x, ast.Raise) for x in st.body):
-                names = [n.id for n in ast.walk(st.test) if isinstance(n, ast.Name)]
-                if names:
-                    ctr, guard_if = names[0], st
-                    break
-        if ctr is None or guard_if is None:
-            rep.ob("C20.R3", fkey(tree, f, "raise-guard"), False, where(f, handler),
-                   "retry handler has no `if <counter> ...: raise` guard - nothing bounds the number of attempts")
-            continue
-        # the counter may count down from the limit or up to it: what is decided is the NUMBER of retries the guard lets through
-        in_loop = {id(x) for x in ast.walk(loop)}
-        loop_written = {x.id for n in own_nodes(loop) for x in ast.walk(n) if isinstance(x, ast.Name) and isinstance(x.ctx, ast.Store)}
-        names = [n.id for n in ast.walk(guard_if.test) if isinstance(n, ast.Name) and n.id in loop_written]
-        if names:
-            ctr = names[0]
-        inits = [n for n in own_nodes(f.node) if isinstance(n, ast.Assign) and any(isinstance(t, ast.Name) and t.id == ctr for t in n.targets)]
-        pre = [n for n in inits if id(n) not in in_loop]
-        writers = [n for n in own_nodes(loop) if (isinstance(n, (ast.Assign, ast.AugAssign, ast.AnnAssign, ast.NamedExpr))
-                   and any(isinstance(x, ast.Name) and isinstance(x.ctx, ast.Store) and x.id == ctr for x in ast.walk(n)))]
-        decs = [n for n in writers if isinstance(n, ast.AugAssign) and isinstance(n.op, (ast.Sub, ast.Add)) and isinstance(n.value, ast.Constant) and n.value.value == 1]
-        dirs = {type(n.op) for n in decs}
-        delta = -1 if dirs == {ast.Sub} else 1 if dirs == {ast.Add} else None
-        sim = {}
-        if len(pre) == 1 and delta is not None:
-            for R in (-1, 0, 1, 2, 5):
-                c = peval(pre[0].value, {"self._retries": R})
-                k = 0
-                while k <= 8 and isinstance(c, int) and not isinstance(c, bool):
-                    g = peval(guard_if.test, {ctr: c, "self._retries": R})
-                    if g is UNKNOWN:
-                        k = None
+        if isinstance(loop, ast.For):
+            _for_form(ctx, tree, f, loop, tr, handler)
+        else:
+            # R3 counter
+            ctr = None
+            guard_if = None
+            for st in handler.body:
+                if isinstance(st, ast.If) and any(isinstance(x, ast.Raise) for x in st.body):
+                    names = [n.id for n in ast.walk(st.test) if isinstance(n, ast.Name)]
+                    if names:
+                        ctr, guard_if = names[0], st
                         break
-                    if g:
-                        break
-                    c += delta
-                    k += 1
-                sim[R] = k if isinstance(c, int) else None
-        want = {-1: 0, 0: 0, 1: 1, 2: 2, 5: 5}
-        rep.ob("C20.R3", fkey(tree, f, "raise-guard"), sim == want, where(f, guard_if),
-               f"guard `{ast.unparse(guard_if.test)}` with counter `{ctr}` lets through {sim} retries for retries = -1, 0, 1, 2, 5; must be exactly {want}")
-        rep.ob("C20.R3", fkey(tree, f, "reraise"), any(isinstance(x, ast.Raise) and x.exc is None for x in guard_if.body), where(f, guard_if),
-               "exhausted retries re-raise the last error (bare `raise`)")
-        # initialisation: once, before the loop, a function of the configured limit only
-        init_reads = {norm(x) for n in pre for x in ast.walk(n.value) if isinstance(x, (ast.Name, ast.Attribute))} - {"self"}
-        ok_init = len(pre) == 1 and init_reads <= {"self._retries"}
-        rep.ob("C20.R3", fkey(tree, f, "init"), ok_init, where(f, pre[0]) if pre else where(f),
-               f"counter `{ctr}` initialised before the loop by {[ast.unparse(n) for n in pre]} (a constant or the configured limit)")
-        rep.ob("C20.R3", fkey(tree, f, "writers"), len(writers) == len(decs) and len(decs) >= 1 and delta is not None, where(f, writers[0]) if writers else where(f, handler),
-               f"writers of `{ctr}` inside the loop: {[ast.unparse(n) for n in writers]}; only steps of one in one direction are allowed")
-        # paths from the handler back to the loop head
-        hn = cfg._by_ast.get(id(handler))
-        if not hn:
-            raise AnalysisError(f"retry handler unreachable in CFG of {f.qual}")
-        paths = cfg.paths(hn[0], lambda n: n is loop_node, follow=lambda e: e.kind != "exc")
-        rep.floor("C20.R3", f"paths from the retry handler back to the loop head ({tree})", len(paths), 1)
-        dec_ids = {id(d) for d in decs}
-        for i, p in enumerate(paths):
-            nodes = [e.src for e in p]
-            ndec = sum(1 for n in nodes if n.ast is not None and id(n.ast) in dec_ids)
-            guard_edges = [e for e in p if e.src.ast is guard_if]
-            passes_guard = any(e.kind == "f" for e in guard_edges)
-            rep.ob("C20.R3", fkey(tree, f, f"retry-path-{i}"), ndec == 1 and passes_guard, where(f, handler),
-                   f"retry path {[n.lineno for n in nodes]}: {ndec} step(s) of `{ctr}`, passes the exhaustion guard: {passes_guard}")
-            sleeps = [n for n in nodes if n.ast is not None and any(isinstance(c, ast.Call) and (chain(c.func) or [''])[-1] == 'sleep' for c in ast.walk(n.ast))
-                      and n.kind == "stmt"]
-            ok = len(sleeps) == 1
-            detail = f"retry path sleeps {len(sleeps)} time(s)"
-            if ok:
-                call = next(c for c in ast.walk(sleeps[0].ast) if isinstance(c, ast.Call) and (chain(c.func) or [''])[-1] == 'sleep')
-                terms = [norm(a) for a in ctx.prov.expand(call.args[0], f, sleeps[0])] if call.args else []
-                ok = bool(terms) and all(t.startswith("next(exponential_backoff(") for t in terms)
-                detail = f"sleep argument <- {terms}"
+            if ctr is None or guard_if is None:
+                rep.ob("C20.R3", fkey(tree, f, "raise-guard"), False, where(f, handler),
+                       "retry handler has no `if <counter> ...: raise` guard - nothing bounds the number of attempts")
+                continue
+            # the counter may count down from the limit or up to it: what is decided is the NUMBER of retries the guard lets through
+            in_loop = {id(x) for x in ast.walk(loop)}
+            loop_written = {x.id for n in own_nodes(loop) for x in ast.walk(n) if isinstance(x, ast.Name) and isinstance(x.ctx, ast.Store)}
+            names = [n.id for n in ast.walk(guard_if.test) if isinstance(n, ast.Name) and n.id in loop_written]
+            if names:
+                ctr = names[0]
+            inits = [n for n in own_nodes(f.node) if isinstance(n, ast.Assign) and any(isinstance(t, ast.Name) and t.id == ctr for t in n.targets)]
+            pre = [n for n in inits if id(n) not in in_loop]
+            writers = [n for n in own_nodes(loop) if (isinstance(n, (ast.Assign, ast.AugAssign, ast.AnnAssign, ast.NamedExpr))
+                       and any(isinstance(x, ast.Name) and isinstance(x.ctx, ast.Store) and x.id == ctr for x in ast.walk(n)))]
+            decs = [n for n in writers if isinstance(n, ast.AugAssign) and isinstance(n.op, (ast.Sub, ast.Add)) and isinstance(n.value, ast.Constant) and n.value.value == 1]
+            dirs = {type(n.op) for n in decs}
+            delta = -1 if dirs == {ast.Sub} else 1 if dirs == {ast.Add} else None
+            sim = {}
+            if len(pre) == 1 and delta is not None:
+                for R in (-1, 0, 1, 2, 5):
+                    c = peval(pre[0].value, {"self._retries": R})
+                    k = 0
+                    while k <= 8 and isinstance(c, int) and not isinstance(c, bool):
+                        g = peval(guard_if.test, {ctr: c, "self._retries": R})
+                        if g is UNKNOWN:
+                            k = None
+                            break
+                        if g:
+                            break
+                        c += delta
+                        k += 1
+                    sim[R] = k if isinstance(c, int) else None
+            want = {-1: 0, 0: 0, 1: 1, 2: 2, 5: 5}
+            rep.ob("C20.R3", fkey(tree, f, "raise-guard"), sim == want, where(f, guard_if),
+                   f"guard `{ast.unparse(guard_if.test)}` with counter `{ctr}` lets through {sim} retries for retries = -1, 0, 1, 2, 5; must be exactly {want}")
+            rep.ob("C20.R3", fkey(tree, f, "reraise"), any(isinstance(x, ast.Raise) and x.exc is None for x in guard_if.body), where(f, guard_if),
+                   "exhausted retries re-raise the last error (bare `raise`)")
+            # initialisation: once, before the loop, a function of the configured limit only
+            init_reads = {norm(x) for n in pre for x in ast.walk(n.value) if isinstance(x, (ast.Name, ast.Attribute))} - {"self"}
+            ok_init = len(pre) == 1 and init_reads <= {"self._retries"}
+            rep.ob("C20.R3", fkey(tree, f, "init"), ok_init, where(f, pre[0]) if pre else where(f),
+                   f"counter `{ctr}` initialised before the loop by {[ast.unparse(n) for n in pre]} (a constant or the configured limit)")
+            rep.ob("C20.R3", fkey(tree, f, "writers"), len(writers) == len(decs) and len(decs) >= 1 and delta is not None, where(f, writers[0]) if writers else where(f, handler),
+                   f"writers of `{ctr}` inside the loop: {[ast.unparse(n) for n in writers]}; only steps of one in one direction are allowed")
+            # paths from the handler back to the loop head
+            hn = cfg._by_ast.get(id(handler))
+            if not hn:
+                raise AnalysisError(f"retry handler unreachable in CFG of {f.qual}")
+            paths = cfg.paths(hn[0], lambda n: n is loop_node, follow=lambda e: e.kind != "exc")
+            rep.floor("C20.R3", f"paths from the retry handler back to the loop head ({tree})", len(paths), 1)
+            dec_ids = {id(d) for d in decs}
+            for i, p in enumerate(paths):
+                nodes = [e.src for e in p]
+                ndec = sum(1 for n in nodes if n.ast is not None and id(n.ast) in dec_ids)
+                guard_edges = [e for e in p if e.src.ast is guard_if]
+                passes_guard = any(e.kind == "f" for e in guard_edges)
+                rep.ob("C20.R3", fkey(tree, f, f"retry-path-{i}"), ndec == 1 and passes_guard, where(f, handler),
+                       f"retry path {[n.lineno for n in nodes]}: {ndec} step(s) of `{ctr}`, passes the exhaustion guard: {passes_guard}")
+                sleeps = [n for n in nodes if n.ast is not None and any(isinstance(c, ast.Call) and (chain(c.func) or [''])[-1] == 'sleep' for c in ast.walk(n.ast))
+                          and n.kind == "stmt"]
+                ok = len(sleeps) == 1
+                detail = f"retry path sleeps {len(sleeps)} time(s)"
                 if ok:
-                    ok2, d2 = _backoff(ctx, f, terms[0])
-                    ok, detail = ok2, detail + "; " + d2
-            rep.ob("C20.R4", fkey(tree, f, f"retry-path-{i}"), ok, where(f, sleeps[0].ast) if sleeps else where(f, handler), detail)
-        # the delays generator must be created once, outside the loop
-        gens = [n for n in own_nodes(f.node) if isinstance(n, ast.Call) and (chain(n.func) or [''])[-1] == "exponential_backoff"]
-        rep.ob("C20.R4", fkey(tree, f, "generator-outside-loop"), bool(gens) and all(id(g) not in in_loop for g in gens),
-               where(f, gens[0]) if gens else where(f), "back-off generator is created once before the loop (a fresh generator per attempt would always yield 0)")
+                    call = next(c for c in ast.walk(sleeps[0].ast) if isinstance(c, ast.Call) and (chain(c.func) or [''])[-1] == 'sleep')
+                    terms = [norm(a) for a in ctx.prov.expand(call.args[0], f, sleeps[0])] if call.args else []
+                    ok = bool(terms) and all(t.startswith("next(exponential_backoff(") for t in terms)
+                    detail = f"sleep argument <- {terms}"
+                    if ok:
+                        ok2, d2 = _backoff(ctx, f, terms[0])
+                        ok, detail = ok2, detail + "; " + d2
+                rep.ob("C20.R4", fkey(tree, f, f"retry-path-{i}"), ok, where(f, sleeps[0].ast) if sleeps else where(f, handler), detail)
+            # the delays generator must be created once, outside the loop
+            gens = [n for n in own_nodes(f.node) if isinstance(n, ast.Call) and (chain(n.func) or [''])[-1] == "exponential_backoff"]
+            rep.ob("C20.R4", fkey(tree, f, "generator-outside-loop"), bool(gens) and all(id(g) not in in_loop for g in gens),
+                   where(f, gens[0]) if gens else where(f), "back-off generator is created once before the loop (a fresh generator per attempt would always yield 0)")
         # R5 configuration flow
         cls = f.cls
         assert cls is not None
